@@ -324,6 +324,10 @@ class MatrixRelationshipSet(RelationshipSet):
         colinds = self._table.column(num_col_name(self.col_type)).to_numpy()
         if attribute is None or (attribute == "count" and "count" not in self._table.column_names):
             values = np.ones(nnz, dtype=np.float32)
+        elif pa.types.is_timestamp(self._table.field(attribute).type):
+            # SciPy has no date-time dtype; use seconds since the epoch like torch()
+            vals = self._table.column(attribute)
+            values = vals.cast(pa.timestamp("s")).cast(pa.int64()).to_numpy()
         else:
             values = self._table.column(attribute).to_numpy()
 
